@@ -122,7 +122,7 @@ def check(tier, seed):
         doc = parse(text)
         ops = [d for d in doc.definitions if isinstance(d, A.OperationDefinition)]
         depths = {(o.name.value if o.name else None): ref_depth_of(doc, o, variables) for o in ops}
-        filters = [None] + [k for k in depths if k]
+        filters = [None] + [k for k in depths if k] + ["NoSuchOperation"]      # a filter naming no operation of the document: nothing may be measured
         if (text, tuple(sorted(variables.items()))) not in seen_docs:
             seen_docs.add((text, tuple(sorted(variables.items()))))
             nontrivial += 1
